@@ -222,3 +222,44 @@ BASE = {
 
 def alphabet(names, extra=()):
     return [BASE[n] for n in names] + list(extra)
+
+
+# ---------------------------------------------------------------------------------------------
+# one symbol per pickletools opcode class (representative argument) for the full-class pass
+# ---------------------------------------------------------------------------------------------
+
+EXT_CODE = 1
+
+
+def register_ext():
+    """EXT1/2/4 need a copyreg entry for the reference VM to accept them."""
+    import copyreg
+
+    if (("vp_ext", "E") not in copyreg._extension_registry):
+        copyreg.add_extension("vp_ext", "E", EXT_CODE)
+
+
+def fullclass_symbols():
+    reps = [
+        ("INT", 7), ("BININT", 70000), ("BININT1", 9), ("BININT2", 300), ("LONG", 9), ("LONG1", 2**70), ("LONG4", -5),
+        ("STRING", "ab"), ("BINSTRING", b"ab"), ("SHORT_BINSTRING", b"ab"), ("BINBYTES", b"yz"),
+        ("SHORT_BINBYTES", b"yz"), ("BINBYTES8", b"yz"), ("BYTEARRAY8", b"yz"), "NEXT_BUFFER", "READONLY_BUFFER",
+        "NONE", "NEWTRUE", "NEWFALSE", ("UNICODE", "u"), ("SHORT_BINUNICODE", "s"), ("BINUNICODE", "t"),
+        ("BINUNICODE8", "v"), ("FLOAT", 1.5), ("BINFLOAT", 2.5), "EMPTY_LIST", "APPEND", "APPENDS", "LIST",
+        "EMPTY_TUPLE", "TUPLE", "TUPLE1", "TUPLE2", "TUPLE3", "EMPTY_DICT", "DICT", "SETITEM", "SETITEMS",
+        "EMPTY_SET", "ADDITEMS", "FROZENSET", "POP", "DUP", "MARK", "POP_MARK", ("GET", 0), ("BINGET", 0),
+        ("LONG_BINGET", 0), ("PUT", 0), ("BINPUT", 0), ("LONG_BINPUT", 0), "MEMOIZE", ("EXT1", EXT_CODE),
+        ("EXT2", EXT_CODE), ("EXT4", EXT_CODE), ("GLOBAL", ("m", "C")), "STACK_GLOBAL", "REDUCE", "BUILD",
+        ("INST", ("m", "C")), "OBJ", "NEWOBJ", "NEWOBJ_EX", ("PROTO", 3), ("PERSID", "pid"), "BINPERSID",
+    ]
+    guards = {"APPEND": "append", "APPENDS": "appends", "SETITEM": "setitem", "SETITEMS": "setitems",
+              "ADDITEMS": "additems", "BUILD": "build"}
+    out = []
+    for r in reps:
+        name = r if isinstance(r, str) else r[0]
+        label = name if isinstance(r, str) else f"{name}({r[1]!r})"
+        out.append(Sym(label, enc(name) if isinstance(r, str) else enc(*r), guards.get(name)))
+    names = {s.label.split("(")[0] for s in out} | {"STOP", "FRAME"}
+    missing = set(CODE) - names
+    assert not missing, missing
+    return out
